@@ -150,11 +150,12 @@ func cmdC10Oracle(args []string) {
 // checkRepeat: the check/action discipline on the harness's state-machine log (nested machines on a stack)
 func checkRepeat(rep []string) string {
 	type mach struct {
-		n      int
-		haschk bool
-		st     string // need, loop, act
-		cur    int
-		failed bool // a falsification was signalled while this machine was running
+		n       int
+		haschk  bool
+		st      string // need, loop, act
+		cur     int
+		failed  bool // a falsification was signalled while this machine was running
+		checked bool // the invariant check ran at least once
 	}
 	var stack []*mach
 	for k, e := range rep {
@@ -170,6 +171,9 @@ func checkRepeat(rep []string) string {
 		case "E":
 			if len(stack) == 0 {
 				return "end without begin"
+			}
+			if m := stack[len(stack)-1]; m.haschk && m.n > 0 && !m.checked {
+				return fmt.Sprintf("event %d: the machine ended without ever running the invariant check (not even on the initial state)", k)
 			}
 			stack = stack[:len(stack)-1]
 		case "S":
@@ -188,6 +192,7 @@ func checkRepeat(rep []string) string {
 				return fmt.Sprintf("event %d: invariant runs when none is due (state %s)", k, m.st)
 			}
 			m.st = "loop"
+			m.checked = true
 		case "UAct":
 			if len(stack) == 0 {
 				return fmt.Sprintf("event %d: action outside a state machine", k)
